@@ -62,10 +62,91 @@ func (cs *c15Case) key() string {
 }
 
 // produce writes the output with or without the metadata.
-func (cs *c15Case) produce(withMeta bool) ([]byte, error, string) {
+//
+// The blobs are handed over the way a caller who read one sidecar file would hold them:
+// adjacent sub-slices of ONE buffer, each with spare capacity reaching over whatever
+// follows it (for the muxer kinds the frame bitstream sits between ICC and EXIF, the
+// order in which the container stores them).  checkArena reports whether that buffer,
+// including its unused tail, is still what the caller put there.
+func (cs *c15Case) produce(withMeta bool) (outBytes []byte, outErr error, panicked string) {
 	icc, _ := c15Blob(cs.ICC, 0x11)
 	exif, _ := c15Blob(cs.EXIF, 0x22)
 	xmp, _ := c15Blob(cs.XMP, 0x33)
+	var muxBits []byte
+	if strings.HasPrefix(cs.Kind, "mux") {
+		b, err, p := encode(imgs.Make(17, 9, "noise", "agradient", cs.Seed), &webp.EncoderOptions{Lossless: true, Quality: 75, Method: 4})
+		if err != nil || p != "" {
+			return nil, fmt.Errorf("cannot make the frame for the muxer kinds: %v %s", err, first(p)), ""
+		}
+		f, perr := riffwalk.Parse(b)
+		if perr != nil || len(f.Frames) != 1 {
+			return nil, fmt.Errorf("cannot parse the frame for the muxer kinds: %v", perr), ""
+		}
+		muxBits = f.Frames[0].Bitstream
+		if cs.Kind == "mux-still-odd" && len(muxBits)%2 == 0 || cs.Kind == "mux-still-even" && len(muxBits)%2 == 1 {
+			muxBits = append(append([]byte(nil), muxBits...), 0) // a VP8L decoder ignores trailing bytes
+		}
+	}
+	arena := make([]byte, len(icc)+len(exif)+len(xmp)+len(muxBits)+16)
+	for i := range arena {
+		arena[i] = 0xEE
+	}
+	arena = arena[:0]
+	put := func(b []byte) []byte {
+		if b == nil {
+			return nil
+		}
+		start := len(arena)
+		arena = append(arena, b...)
+		return arena[start:len(arena)] // capacity reaches to the end of the caller's buffer
+	}
+	icc = put(icc)
+	muxBits = put(muxBits)
+	exif = put(exif)
+	xmp = put(xmp)
+	snapshot := append([]byte(nil), arena[:cap(arena)]...)
+	defer func() {
+		if panicked == "" && outErr == nil && !bytes.Equal(arena[:cap(arena)], snapshot) {
+			outErr = fmt.Errorf("the caller's buffer holding the metadata blobs was modified")
+		}
+	}()
+	if strings.HasPrefix(cs.Kind, "mux") {
+		p := func() (p string) {
+			defer func() {
+				if r := recover(); r != nil {
+					p = fmt.Sprint(r)
+				}
+			}()
+			m := mux.NewMuxer()
+			if withMeta {
+				if cs.ICC != "absent" {
+					m.SetICCProfile(icc)
+				}
+				if cs.EXIF != "absent" {
+					m.SetEXIF(exif)
+				}
+				if cs.XMP != "absent" {
+					m.SetXMP(xmp)
+				}
+			}
+			if cs.Kind == "mux-anim" {
+				outErr = m.AddFrame(muxBits, &mux.FrameOptions{Duration: 100})
+				if outErr == nil {
+					outErr = m.AddFrame(muxBits, &mux.FrameOptions{Duration: 50})
+				}
+			} else {
+				outErr = m.AddFrame(muxBits, nil)
+			}
+			if outErr != nil {
+				return
+			}
+			var buf bytes.Buffer
+			outErr = m.Assemble(&buf)
+			outBytes = buf.Bytes()
+			return
+		}()
+		return outBytes, outErr, p
+	}
 	alpha := "opaque"
 	if strings.HasSuffix(cs.Kind, "-alpha") {
 		alpha = "agradient"
@@ -246,12 +327,12 @@ var _ image.Image
 
 func init() {
 	registerCases[c15Case]("C15", "exploration",
-		"full product of blob alphabet {absent, nil, empty, 1, 2, 3 bytes, chunk-look-alike, 4095, 4096, 65537 bytes} for each of ICC, EXIF, XMP x 12 output kinds (lossy, lossless, lossy+alpha, lossless+alpha, both again with Exact on a picture with colour under transparent pixels, 1-frame and 2-frame AnimEncoder, lossy with a TargetSize and with a TargetPSNR search, Method 6 Quality 100 in both codecs); blobs read back byte-exact via riffwalk, mux.GetChunk and animation.DecodeBytes; flags = chunk presence; bitstream/ALPH payloads and decoded pixels identical to the no-metadata output",
+		"full product of blob alphabet {absent, nil, empty, 1, 2, 3 bytes, chunk-look-alike, 4095, 4096, 65537 bytes} for each of ICC, EXIF, XMP x 15 output kinds (mux.Muxer with a pre-encoded still of odd and of even length and with two frames, all blobs and the bitstream being adjacent sub-slices of one caller-owned buffer that must come back untouched; lossy, lossless, lossy+alpha, lossless+alpha, both again with Exact on a picture with colour under transparent pixels, 1-frame and 2-frame AnimEncoder, lossy with a TargetSize and with a TargetPSNR search, Method 6 Quality 100 in both codecs); blobs read back byte-exact via riffwalk, mux.GetChunk and animation.DecodeBytes; flags = chunk presence; bitstream/ALPH payloads and decoded pixels identical to the no-metadata output",
 		[]string{"worker count pinned to 1, pools never reuse"},
 		nil,
 		func(e *fw.Env) func(c *choice.Ctx) caseI {
 			kinds := []string{"lossy", "lossless", "lossy-alpha", "lossless-alpha", "lossy-alpha-exact", "lossless-alpha-exact", "anim1", "anim2",
-				"lossy-targetsize", "lossy-targetpsnr", "lossless-m6", "lossy-m6"}
+				"lossy-targetsize", "lossy-targetpsnr", "lossless-m6", "lossy-m6", "mux-still-odd", "mux-still-even", "mux-anim"}
 			names := c15BlobNames
 			if e.Quick() {
 				names = []string{"absent", "nil", "empty", "b1", "b2", "chunklike", "b4095"}
